@@ -36,6 +36,39 @@ class Runner:
         self.n = 0
         self.batch, self.info = [], []
         self.executed = set()
+        # RSA-1024 keys by the length of their DER body: a multiple of the cipher block size gets a FULL block of
+        # PKCS#7 padding when sealed (about one key in three); generated keys hit either class only by chance
+        self.by_alignment = {}
+        for _ in range(200):
+            r = self.pool._gen_rsa(1024)
+            n = K.der_length(r.priv)
+            cls_ = "aligned" if n % 16 == 0 else "unaligned" if n % 8 else None
+            if cls_ and cls_ not in self.by_alignment:
+                r.origin += " [DER body %d octets, %s]" % (n, cls_)
+                self.by_alignment[cls_] = r
+            if len(self.by_alignment) == 2:
+                break
+        else:
+            raise Machinery("no block-aligned / unaligned RSA-1024 key found in 200 tries")
+        self.pool.universes["rsa"].append((self.by_alignment["aligned"], self.by_alignment["unaligned"]))
+
+    def get(self, root, prov, variant):
+        """pool.obtain, except that paramiko failing to load back a key file it has just written with the right
+        passphrase is an observation (a failed round trip), not a machinery failure"""
+        try:
+            return self.pool.obtain(root, prov, variant)
+        except K.PoolLoadFailure as e:
+            tok = "unicode" if e.passphrase else "none"
+            rec = dict(kind="file", ktype=root.type, target="file_obj", umask="022", wpass=tok, lpass=tok,
+                       route="file_obj", wres="ok", exists=False, created=False, mode=[],
+                       lres=type(e.exc).__name__, lkey="-")
+            self.batch.append(rec)
+            self.info.append({"case": rec, "key": root.origin, "bits": 0, "write_passphrase": e.passphrase,
+                              "load_passphrase": e.passphrase, "path": None,
+                              "note": "key pool: written by paramiko, loaded via %s: %s" % (e.way, e.exc)})
+            self.c.case(key="pool|%s|%s" % (root.origin, e.way))
+            root.cache[(prov, e.way)] = self.pool.obtain(root, "generated", 0)[0]     # carry on with the original
+            return self.pool.obtain(root, "generated", 0)
 
     # ---- passphrases
     def passphrase(self, token):
@@ -64,7 +97,9 @@ class Runner:
         return "not-the-passphrase"
 
     # ---- file machine
-    def file_case(self, case):
+    def file_case(self, case, force_root=None, legacy=None):
+        """legacy = cipher name: the sealed file is a traditional encrypted PEM written by the harness
+        (abstractly a `bundled` source: paramiko only loads it)"""
         ktype, target, umask, wpass, lpass, route = case
         rnd, pool = self.rnd, self.pool
         cls = K.key_class(ktype)
@@ -75,7 +110,15 @@ class Runner:
         path = str(d / "id_key")
         sio = None
         wsecret = None
-        if target == "bundled":
+        if target == "bundled" and legacy:
+            root = force_root
+            wsecret = self.passphrase(rnd.choice(["ascii", "unicode", "long"]))
+            with open(path, "w") as f:
+                f.write(K.legacy_pem(root.priv, legacy, wsecret, os.urandom(8 if legacy.startswith("DES") else 16)))
+            wres, origin = "ok", root.origin + "/harness-sealed " + legacy
+            ref = pool.obtain(root, "generated", 0)[0]
+            created, before = False, True
+        elif target == "bundled":
             enc = wpass
             roots = [r for r in pool.bundled[ktype] if (r.password is not None) == (enc == "ascii")]
             root = rnd.choice(roots)
@@ -88,8 +131,8 @@ class Runner:
             created, before = False, True
         else:
             unis = pool.universes[ktype]
-            root = unis[rnd.randrange(len(unis))][0]
-            ref, origin = pool.obtain(root, rnd.choice(["generated", "file_pem", "file_openssh"]), rnd.randrange(12))
+            root = force_root or unis[rnd.randrange(len(unis))][0]
+            ref, origin = self.get(root, rnd.choice(["generated", "file_pem", "file_openssh"]), rnd.randrange(12))
             wsecret = self.passphrase(wpass)
             real = path
             if target == "dangling_link":
@@ -166,7 +209,7 @@ class Runner:
                 "load_passphrase": lsecret, "path": path if target == "bundled" else None}
         self.info.append(info)
         self.executed.add(("file",) + case)
-        self.c.case(key="file|" + "|".join(case) + "|%s|%r|%r" % (origin, wsecret, lsecret),
+        self.c.case(key="file|" + "|".join(case) + "|%s|%r|%r|%s" % (origin, wsecret, lsecret, legacy),
                     sample=info if (wpass, lpass) in (("unicode", "wrong"), ("ascii", "ascii")) and Creates(target)
                     and len(self.c.samples) < 3 else None)
 
@@ -189,7 +232,7 @@ class Runner:
         if kind == "generated":
             return pool.obtain(root, "generated", 0)
         if kind == "loaded":
-            return pool.obtain(root, fileprov, rnd.randrange(12))
+            return self.get(root, fileprov, rnd.randrange(12))
         if kind == "public":
             ways = pool.ways(root, "public_bytes")
             i = rnd.choice([i for i, w in enumerate(ways) if w != "cert_blob"])
@@ -217,8 +260,13 @@ class Runner:
                 except Exception as e:       # certificate around this key's public encoding does not parse
                     return None, "%s/%s: %s: %s" % (root.origin, what, type(e).__name__, e)
                 if kind.startswith("loaded"):
-                    k = cls(filename=root.path, password=root.password) if root.path else \
-                        pool._build(root, fileprov, "filename")
+                    if root.path:
+                        k = cls(filename=root.path, password=root.password)
+                    else:
+                        try:
+                            k = pool._build(root, fileprov, "filename")
+                        except K.PoolLoadFailure as e:
+                            return None, "%s: %s" % (root.origin, e)
                     k.load_certificate(src)
                     how = "%s/%s+load_certificate(%s)" % (root.origin, fileprov, what)
                 else:
@@ -327,6 +375,20 @@ def run(c):
     for _ in range(reps_c):
         for _, a, b, _eq in cmps:
             run_.cmp_case(a, b)
+    # RSA-1024 keys whose sealed DER body does / does not need a full padding block: every passphrase relation and
+    # loader route, written by paramiko (AES-256-CBC; to a path and to a file object) and sealed by the harness
+    # with the two older PEM ciphers paramiko reads (AES-128-CBC, DES-EDE3-CBC)
+    if not replay:
+        for root in run_.by_alignment.values():
+            for case in files:
+                ktype, target, umask, wpass, lpass, route = case
+                if ktype != "rsa" or wpass in ("none", "empty") or umask != "022":
+                    continue
+                if target in ("absent", "file_obj"):
+                    run_.file_case(case, force_root=root)
+                elif target == "bundled":
+                    for cipher in ("AES-128-CBC", "DES-EDE3-CBC"):
+                        run_.file_case(case, force_root=root, legacy=cipher)
     # ECDSA keys with short coordinates (fixed scalars): every same-key pair of kinds, every run
     if not replay:
         kinds = sorted({a["kind"] for _, a, _b, _e in cmps if a["type"] == "ecdsa256" and a["mat"] == "k1"})
